@@ -8,6 +8,7 @@
    PROVED (abstract field / ordered *-field, every N, every k, every input):
      default_k_range, default_k_half_integer, default_k_near
                          k = min(round-half-even(2NW), N), at least 1; equals 2NW for half-integer NW
+     dpss_shape          the returned pair is k columns of N samples and k numbers, entry by entry the families below
      dpss_normalisation  columns of squared norm N that are mutually orthogonal are orthonormal after
                          the division by a scalar sN with sN*sN = N (general form: Gram / N)
      dpss_sign_preserves the sign loop multiplies each column by +-1: Gram matrix (orthonormality),
@@ -23,13 +24,22 @@
      cert_eigenvalue     ... and then, GIVEN a complete orthonormal eigenbasis of T(c) (spectral theorem:
                          hypothesis, cited mathematics), some eigenvalue mu of T(c) has
                          (mu - theta_j)^2 * (1 - eps_orth) <= N * eps_res^2
+     cert_sound_transfer, cert_eigenvalue_transfer
+                         the checker runs over Q; the same two statements over any ordered field B (e.g. R, where
+                         cos(2 pi W) lives) reached by an order-preserving ring homomorphism phi : Q -> B
+     slepian_commutes    T(c) K = K T(c) for every N, GIVEN that the library sequences are consistent:
+                         g(d) = d*sinc(2Wd) satisfies g(d+2) + g(d) = 2 c g(d+1) (sine addition theorem; hypothesis)
+     tridiag_eigvec_is_kernel_eigvec, tridiag_eigvec_concentration
+                         hence (eigenvalues of T are simple) every eigenvector of T(c) is an eigenvector of the sinc
+                         kernel K, and for a unit one the number dpss() returns is that eigenvalue = v^T K v
      slepian_centrosymmetric, slepian_eigvec_parity
                          T(c) commutes with index reversal; its eigenvalues are simple (non-zero
                          off-diagonals), hence every eigenvector is symmetric or antisymmetric
    NOT PROVED (search on the implementation only; see tools/props/C18.py):
      - everything about what the C solver returns: that its columns are orthogonal with squared norm N,
        that they are (near) eigenvectors of T, that tapsum is the column sum
-     - T commutes with the sinc kernel (Slepian 1978), so eigenvectors of T are those of K: cited
+     - the sine addition theorem for the pair (np.sinc, cos) : hypothesis of slepian_commutes (monitored numerically)
+     - "approximate eigenvector of T => close to an exact one" (perturbation theory): cited
      - the spectral theorem for real symmetric matrices: cited (hypothesis of cert_eigenvalue)
      - v^T K v is the energy fraction inside |f| <= W (an integral over frequencies), 0 < lambda <= 1,
        ordering of the eigenvalues, "leading" eigenvectors, maximal concentration (Courant-Fischer)
@@ -37,7 +47,7 @@
        is what the code enforces, "starts with a positive lobe" is not implied by it
      - the FFT convolution in _autocov computes the lag sums (modelled as the lag sums) *)
 Require Import Spectrum.Theory.Ops Spectrum.Theory.Sum Spectrum.Theory.Vec Spectrum.Theory.Order
-               Spectrum.Model.Dpss Spectrum.Proofs.DpssTheory Spectrum.Proofs.DpssCertTheory
+               Spectrum.Model.Dpss Spectrum.Proofs.DpssTheory Spectrum.Proofs.DpssCertTheory Spectrum.Proofs.DpssTransfer Spectrum.Proofs.DpssCommute
                Spectrum.Instances.QcC Spectrum.Instances.QcOrd_C18.
 From Coq Require Import QArith Qcanon.
 
@@ -55,6 +65,14 @@ Proof. exact (default_k_near_thm N a b). Qed.
 Section C18.
 Context {F : Type} {OF : Ops F} {L : Laws OF}.
 Local Open Scope F_scope.
+
+Theorem dpss_shape (sN W : F) sncl N k raw tapsum :
+  let '(cols, ev) := dpss_post sN W sncl N k raw tapsum in
+  length cols = k /\ length ev = k /\
+  forall j, (j < k)%nat -> length (nth j cols []) = N /\
+     (forall i, (i < N)%nat -> nthF (nth j cols []) i = taper sN N raw tapsum j i) /\
+     nthF ev j = eig N W (nthF sncl) (taper sN N raw tapsum j).
+Proof. exact (dpss_post_shape_thm sN W sncl N k raw tapsum). Qed.
 
 Theorem dpss_normalisation (sN : F) N k raw : sN * sN = ofnat N -> ofnat N <> 0 ->
   (forall j l, dot N (scaled sN N raw j) (scaled sN N raw l) = dot N (rawcol N raw j) (rawcol N raw l) / ofnat N)
@@ -128,6 +146,66 @@ Theorem cert_eigenvalue N k (clo chi c : F) Vl thetal eo er (U : nat -> nat -> F
 Proof. exact (cert_eigenvalue_thm real_field N k clo chi c Vl thetal eo er U mu). Qed.
 End C18.
 
+(* The checker runs over Q; cos(2 pi W) is real.  Along any order-preserving ring homomorphism
+   phi : A -> B of ordered fields with trivial conjugation (Q -> R is one) acceptance over A gives the
+   bounds over B, for every c of B inside the image of the enclosure. *)
+Section C18Transfer.
+Context {A : Type} {OA : Ops A} {LA : Laws OA} {OLA : OrdLaws OA}.
+Context {B : Type} {OB : Ops B} {LB : Laws OB} {OLB : OrdLaws OB}.
+Local Open Scope F_scope.
+Variable phi : A -> B.
+Hypothesis realA : forall a : A, conj a = a.
+Hypothesis realB : forall b : B, conj b = b.
+Hypothesis phi_1 : phi 1 = 1.
+Hypothesis phi_add : forall a b, phi (a + b) = phi a + phi b.
+Hypothesis phi_mul : forall a b, phi (a * b) = phi a * phi b.
+Hypothesis phi_nonneg : forall a, nonneg a -> nonneg (phi a).
+
+Theorem cert_sound_transfer N k (clo chi : A) Vl thetal eo er :
+  cert_check N k clo chi Vl thetal eo er = true ->
+  let V := fun j m => phi (nthF (nth j Vl []) m) in
+  let th := fun j => phi (nthF thetal j) in
+  (forall j l, (j < k)%nat -> (l < k)%nat ->
+      le (dot N (V j) (V l) - delta j l) (phi eo) /\ le (- (dot N (V j) (V l) - delta j l)) (phi eo))
+  /\ (forall c : B, le (phi clo) c -> le c (phi chi) -> forall j i, (j < k)%nat -> (i < N)%nat ->
+      le (resid N c (V j) (th j) i) (phi er) /\ le (- resid N c (V j) (th j) i) (phi er)).
+Proof. exact (cert_transfer_thm phi realA phi_1 phi_add phi_mul phi_nonneg N k clo chi Vl thetal eo er). Qed.
+
+Theorem cert_eigenvalue_transfer N k (clo chi : A) (c : B) Vl thetal eo er (U : nat -> nat -> B) (mu : nat -> B) :
+  cert_check N k clo chi Vl thetal eo er = true -> le (phi clo) c -> le c (phi chi) -> lt eo 1 ->
+  (forall m i, (m < N)%nat -> (i < N)%nat -> tmul N c (U m) i = mu m * U m i) ->
+  (forall x : nat -> B, dot N x x = sumf N (fun m => dot N (U m) x * dot N (U m) x)) ->
+  forall j, (j < k)%nat -> exists m, (m < N)%nat /\
+    le ((mu m - phi (nthF thetal j)) * (mu m - phi (nthF thetal j)) * (1 - phi eo)) (ofnat N * (phi er * phi er)).
+Proof. exact (cert_eigenvalue_transfer_thm phi realA realB phi_1 phi_add phi_mul phi_nonneg N k clo chi c Vl thetal eo er U mu). Qed.
+End C18Transfer.
+
+(* Slepian's commutation, for every N, from the consistency of the two library sequences:
+   g(d) = d sinc(2Wd) obeys g(d+2) + g(d) = 2 cos(2 pi W) g(d+1)  (addition theorem of the sine; hypothesis) *)
+Section C18Commute.
+Context {F : Type} {OF : Ops F} {L : Laws OF} {OL : OrdLaws OF}.
+Local Open Scope F_scope.
+Variables (W c : F) (snc : nat -> F).
+Hypothesis cheb : forall e : nat,
+  ofnat (e + 2) * snc (e + 2)%nat + ofnat e * snc e = two * c * (ofnat (e + 1) * snc (e + 1)%nat).
+
+Theorem slepian_commutes N (v : nat -> F) i : (i < N)%nat ->
+  matvec N (kern W snc) (tmul N c v) i = tmul N c (matvec N (kern W snc) v) i.
+Proof. exact (slepian_commutes_thm W c snc cheb N v i). Qed.
+
+Theorem tridiag_eigvec_is_kernel_eigvec N (theta : F) (v : nat -> F) :
+  (forall i, (i < N)%nat -> tmul N c v i = theta * v i) ->
+  (exists i, (i < N)%nat /\ v i <> 0) ->
+  exists lam, forall i, (i < N)%nat -> matvec N (kern W snc) v i = lam * v i.
+Proof. exact (tridiag_eigvec_is_kernel_eigvec_thm W c snc cheb N theta v). Qed.
+
+Theorem tridiag_eigvec_concentration N (theta : F) (v : nat -> F) : snc O = 1 ->
+  (forall i, (i < N)%nat -> tmul N c v i = theta * v i) -> dot N v v = 1 ->
+  exists lam, (forall i, (i < N)%nat -> matvec N (kern W snc) v i = lam * v i)
+              /\ eig N W snc v = lam /\ quad N (kern W snc) v = lam * dot N v v.
+Proof. exact (tridiag_eigvec_concentration_thm W c snc cheb N theta v). Qed.
+End C18Commute.
+
 (* non-vacuity on concrete rational inputs *)
 Local Open Scope Z_scope.
 Example default_k_examples :
@@ -155,9 +233,20 @@ Example cert_example :
   /\ @cert_check _ qc_ops 2 2 (Q2Qc 0) (Q2Qc 0) ex_V [Q2Qc (1#2); Q2Qc (1#2)] (Q2Qc (1#100)) (Q2Qc (1#100)) = false.
 Proof. vm_compute. split; reflexivity. Qed.
 
+(* W = 1/4, c = cos(pi/2) = 0: g(d) = d*sinc(d/2) is 0, s, 0, -s, ... (s = 2/pi; any s works algebraically).
+   T K v = K T v on a concrete vector, and the recurrence holds for the entries used *)
+Definition ex_snc : list Qc := [Q2Qc 1; Q2Qc (5#8); Q2Qc 0; Q2Qc (-5#24)].
+Example commute_example :
+  let K := @kern _ qc_ops (Q2Qc (1#4)) (nthF (OF:=qc_ops) ex_snc) in
+  let v := nthF (OF:=qc_ops) [Q2Qc 1; Q2Qc (-2); Q2Qc 3; Q2Qc 5] in
+  map (fun i => this (@matvec _ qc_ops 4 K (@tmul _ qc_ops 4 (Q2Qc 0) v) i)) (seq 0 4)
+  = map (fun i => this (@tmul _ qc_ops 4 (Q2Qc 0) (@matvec _ qc_ops 4 K v) i)) (seq 0 4).
+Proof. vm_compute. reflexivity. Qed.
+
 Print Assumptions default_k_range.
 Print Assumptions default_k_half_integer.
 Print Assumptions default_k_near.
+Print Assumptions dpss_shape.
 Print Assumptions dpss_normalisation.
 Print Assumptions dpss_sign_preserves.
 Print Assumptions eig_is_rayleigh.
@@ -168,3 +257,8 @@ Print Assumptions dpss_sign_odd.
 Print Assumptions slepian_eigvec_parity.
 Print Assumptions cert_sound.
 Print Assumptions cert_eigenvalue.
+Print Assumptions cert_sound_transfer.
+Print Assumptions cert_eigenvalue_transfer.
+Print Assumptions slepian_commutes.
+Print Assumptions tridiag_eigvec_is_kernel_eigvec.
+Print Assumptions tridiag_eigvec_concentration.
